@@ -2,7 +2,7 @@
 
 Extracted verbatim from routee-compass-powertrain: vehicle_ops::{update_soc_percent, as_soc_percent,
 soc_from_battery_and_delta}, PredictionModelRecord::predict, phev::get_phev_energy,
-BEV::{best_case_energy, consume_energy}, PHEV::consume_energy; from routee-compass-core:
+ICE::{best_case_energy, consume_energy}, BEV::{best_case_energy, consume_energy}, PHEV::consume_energy; from routee-compass-core:
 builders::create_energy, Energy::create, EnergyUnit / DistanceUnit / EnergyRateUnit (+ convert /
 accessors, spec tables generated as in C09).  Shims (assumed contracts): StateModel accessors
 (frame + arithmetic, cf. C03.4), the prediction model (uninterpreted rate), FloatCachePolicy,
@@ -116,6 +116,7 @@ impl PredictionModelRecord {
         (model_rate(&self.prediction_model, speed, grade) * f64_real(self.real_world_energy_adjustment)) * conv_DistanceUnit(du, eru_distance(self.energy_rate_unit), d)
     }
 }
+pub struct ICE { pub name: String, pub prediction_model_record: PredictionModelRecord }
 pub struct BEV { pub name: String, pub prediction_model_record: PredictionModelRecord, pub battery_capacity: Energy, pub starting_battery_energy: Energy, pub battery_energy_unit: EnergyUnit }
 pub struct PHEV { pub name: String, pub charge_sustain_model: PredictionModelRecord, pub charge_depleting_model: PredictionModelRecord,
                   pub battery_capacity: Energy, pub starting_battery_energy: Energy, pub battery_energy_unit: EnergyUnit }
@@ -292,6 +293,31 @@ def build(x):
     bev.append(cn)
     parts.append("impl BEV {\n    pub const ENERGY_FEATURE_NAME: &'static str = \"energy_electric\";\n    pub const SOC_FEATURE_NAME: &'static str = \"battery_state\";\n"
                  + "\n".join(f.text for f in bev) + "\n}\n")
+    # ---- ICE ----
+    ice = []
+    ib = x.fn(PT + "vehicle/default/ice.rs", "impl VehicleType for ICE :: fn best_case_energy")
+    ib.rewrite(r"\A(\s*)fn ", r"\1pub fn ", 0, 1, rule="R3")
+    ib.name_return("r")
+    ib.add_spec("""        ensures r matches Ok(p) ==> p.1 == eru_energy(self.prediction_model_record.energy_rate_unit)
+            // C08: best case = ideal rate x distance
+            && p.0@ == self.prediction_model_record.ideal_energy_rate@ * conv_DistanceUnit(distance.1, eru_distance(self.prediction_model_record.energy_rate_unit), distance.0@),""")
+    ice.append(ib)
+    ic = x.fn(PT + "vehicle/default/ice.rs", "impl VehicleType for ICE :: fn consume_energy")
+    ic.rewrite(r"\A(\s*)fn ", r"\1pub fn ", 0, 1, rule="R3")
+    ic.rewrite(r"&ICE::ENERGY_FEATURE_NAME\.into\(\)", "&verif_string(ICE::ENERGY_FEATURE_NAME)", 1, 1, rule="R-into")
+    ic.name_return("r")
+    ic.add_spec("""        requires self.prediction_model_record.wf(),
+        ensures final(state)@.len() == old(state)@.len(),
+            r is Ok ==> ({
+                let e = self.prediction_model_record.energy_spec(speed.0@, grade.0@, distance.0@, distance.1);
+                let eu = eru_energy(self.prediction_model_record.energy_rate_unit);
+                let ie = sm_slot(state_model, ICE::ENERGY_FEATURE_NAME@);
+                // C08: the liquid-fuel slot accumulates the predicted energy of THIS edge (converted to the slot's unit); nothing else changes
+                &&& sv(final(state)@, ie) == sv(old(state)@, ie) + conv_EnergyUnit(eu, sm_energy_unit(state_model, ICE::ENERGY_FEATURE_NAME@), e)
+                &&& forall|j: int| 0 <= j < old(state)@.len() && j != ie ==> #[trigger] final(state)@[j] == old(state)@[j]
+            }),""")
+    ice.append(ic)
+    parts.append("impl ICE {\n    pub const ENERGY_FEATURE_NAME: &'static str = \"energy_liquid\";\n" + "\n".join(f.text for f in ice) + "\n}\n")
     x.note("R3", "`impl VehicleType for BEV/PHEV` methods written as inherent pub fns; the two &'static str constants copied by value; Arc<..> removed")
     # ---- PHEV::consume_energy ----
     pc = x.fn(PT + "vehicle/default/phev.rs", "impl VehicleType for PHEV :: fn consume_energy")
@@ -322,7 +348,7 @@ def build(x):
                  + pc.text + "\n}\n")
     # the three constants must be the code's
     for cname, fname, val in [("ENERGY_FEATURE_NAME", "bev.rs", "energy_electric"), ("SOC_FEATURE_NAME", "bev.rs", "battery_state"),
-                              ("LIQUID_FEATURE_NAME", "phev.rs", "energy_liquid"), ("ELECTRIC_FEATURE_NAME", "phev.rs", "energy_electric"), ("SOC_FEATURE_NAME", "phev.rs", "battery_state")]:
+                              ("LIQUID_FEATURE_NAME", "phev.rs", "energy_liquid"), ("ELECTRIC_FEATURE_NAME", "phev.rs", "energy_electric"), ("SOC_FEATURE_NAME", "phev.rs", "battery_state"), ("ENERGY_FEATURE_NAME", "ice.rs", "energy_liquid")]:
         t = x.src(PT + "vehicle/default/" + fname).text
         import re as _re
         if not _re.search(r"const %s: &'static str = \"%s\";" % (cname, val), t):
